@@ -35,7 +35,7 @@ NUMBER_FIELDS = {"COUNT"}
 
 STATUS_V = ["ACTIVE", "active", "Active", "aCtIvE", "ACT", "act", "D", "d", "NOPE", '""', "5", "true", None]
 MODE_V = ["alpha", "ALPHA", "beta", "Beta", "BETA", "al", None]
-COUNT_V = ['"42"', '"4.0"', '"1e3"', '"1E-2"', '"+7"', '"007"', '"1_000"', '"١٢٣"', '"0x10"', '"1e309"', '"1e-400"', '"nan"', '"inf"', '" 42 "', '"abc"', '""', '"-0.0"', '"1e-5"', "5", "true", "[1]", '"-"', None]
+COUNT_V = ['"42"', '"9007199254740993"', '"-12345678901234567890"', '"1e22"', '"123456789012345678901.5"', '"4.0"', '"1e3"', '"1E-2"', '"+7"', '"007"', '"1_000"', '"١٢٣"', '"0x10"', '"1e309"', '"1e-400"', '"nan"', '"inf"', '" 42 "', '"abc"', '""', '"-0.0"', '"1e-5"', "5", "true", "[1]", '"-"', None]
 NAME_V = ["x", None]
 
 
@@ -303,7 +303,7 @@ def ob_b1(ctx: Ctx) -> Outcome:
     res = sweep(_one, items(ctx), ctx.cores, chunk=60)
     wits = [Witness(what=text, input={"route": item[0], "fields": list(item[1])}, key=f"{item[0]}|{item[1]}", replay={"runner": "props.C11_b:replay", "args": {"route": item[0], "fields": list(item[1])}}, confirmed=True) for item, text in res["failures"][:200]]
     extra = dict(
-        bound=f"schema with REQ∧ENUM, OPT∧ENUM (case-ambiguous), OPT∧TYPE[NUMBER], REQ x instance values: {len(STATUS_V)} STATUS x {len(MODE_V)} MODE x {len(COUNT_V)} COUNT spellings (case variants, unique/ambiguous prefixes, numeric text in all notations incl. overflow/underflow/nan/underscore/non-ASCII digits, wrong kinds, missing) + nested re-use of field names, extra field, literal zone; routes repair(fix on/off), octave_validate(fix=true), octave_write(lenient, schema, dry run); tools sampled with seed {ctx.seed} in quick",
+        bound=f"schema with REQ∧ENUM, OPT∧ENUM (case-ambiguous), OPT∧TYPE[NUMBER], REQ x instance values: {len(STATUS_V)} STATUS x {len(MODE_V)} MODE x {len(COUNT_V)} COUNT spellings (case variants, unique/ambiguous prefixes, numeric text in all notations incl. integers beyond 2**53, overflow/underflow/nan/underscore/non-ASCII digits, wrong kinds, missing) + nested re-use of field names, extra field, literal zone; routes repair(fix on/off), octave_validate(fix=true), octave_write(lenient, schema, dry run); tools sampled with seed {ctx.seed} in quick",
         evaluations=res["evaluations"],
         distinct_nontrivial=res["distinct"],
         rule="a case is (route, instance fields); distinct by that tuple; non-trivial: the instance parses and reaches repair",
